@@ -2,7 +2,10 @@
 
 package flags
 
-import "errors"
+import (
+	"errors"
+	"time"
+)
 
 // C11 - values are converted exactly or rejected.
 
@@ -346,3 +349,45 @@ func init() {
 	vHarnesses["H_C11_int"] = H_C11_int
 	vHarnesses["H_C11_other"] = H_C11_other
 }
+
+type c11Durs struct {
+	D  time.Duration   `long:"d"`
+	DS []time.Duration `long:"ds"`
+	DP *time.Duration  `long:"dp"`
+}
+
+// H_C11_duration: --d=V through the real time.ParseDuration against the
+// documented grammar (refDuration).
+func H_C11_duration(v *V) {
+	V := v.String(v.Shape("lv"))
+	v.Assume(!(len(V) > 0 && V[0] == '"'))
+	kind := v.Choice(3)
+	d := &c11Durs{}
+	p := NewNamedParser("prog", None)
+	p.AddGroup("Application Options", "", d)
+	_, err := p.ParseArgs([]string{"--" + []string{"d", "ds", "dp"}[kind] + "=" + V})
+	vObsErr(v, err)
+	want, ok := refDuration(V)
+	v.Assert((err == nil) == ok, "a duration is accepted iff it follows the documented grammar (signed sequence of decimal numbers with unit)")
+	if err != nil {
+		t, typed := vErrType(err)
+		v.Assert(typed && t == ErrMarshal, "a rejected duration is ErrMarshal")
+		v.Reach("rejected")
+		return
+	}
+	if !ok {
+		return
+	}
+	v.Reach("accepted")
+	v.ObserveInt("ns", int(want))
+	switch kind {
+	case 0:
+		v.Assert(int64(d.D) == want, "the stored duration is exactly the denoted one")
+	case 1:
+		v.Assert(len(d.DS) == 1 && int64(d.DS[0]) == want, "the slice gains exactly the denoted duration")
+	case 2:
+		v.Assert(d.DP != nil && int64(*d.DP) == want, "the pointer is allocated and holds the denoted duration")
+	}
+}
+
+func init() { vHarnesses["H_C11_duration"] = H_C11_duration }
